@@ -117,8 +117,13 @@ class TBRMatchedMarkets:
     if n_geos_max is not None and len(geos) > n_geos_max:
       geos_with_max_impact = list(
           self.geo_req_impact.sort_values(ascending=False).index)
-      geos_in_order = list(geo for geo in geos_with_max_impact if geo in geos)
-      geos = set(geos_in_order[:n_geos_max])
+      # Geos that must be included are always kept; the remaining places are
+      # given to the geos with the highest impact.
+      geos_must_include = self.geos_must_include
+      geos_in_order = list(geo for geo in geos_with_max_impact
+                           if geo in geos and geo not in geos_must_include)
+      n_remaining = max(0, n_geos_max - len(geos_must_include))
+      geos = geos_must_include | set(geos_in_order[:n_remaining])
     return geos
 
   @property
